@@ -9,7 +9,7 @@ LAWS = ("const", "log", "sqrt", "linear3", "linear7", "squared", "exp")
 PRIOS = ("QUERY", "INTERACTIVE", "BATCH_PIPELINE")
 
 
-def gen(r, algo=None, focus=None, tier="quick"):
+def gen(r, algo=None, focus=None, tier="quick", offgrid=False):
     if algo is None:
         algo = r.choice(["naive", "priority", "priority-pool", "overbook", "template"])
     tps = r.choice([1, 1, 2, 2, 3, 5, 10, 10, 20, 100, 1000] if r.random() < 0.9 else [7, 16, 250, 10 ** 4, 10 ** 5])
@@ -45,11 +45,11 @@ def gen(r, algo=None, focus=None, tier="quick"):
         nticks = 0
     cfg = {"algo": algo, "tps": tps, "duration": duration, "pools": pools, "cpus": cpus,
            "ram": float(ram) if ram.denominator != 1 else int(ram), "multi": multi, "over": over}
-    pipes = gen_pipes(r, nticks, tps, ram, focus)
+    pipes = gen_pipes(r, nticks, tps, ram, focus, offgrid=offgrid)
     return {"kind": "sys", "cfg": cfg, "pipes": pipes}
 
 
-def gen_pipes(r, nticks, tps, ram, focus=None, max_ops=5):
+def gen_pipes(r, nticks, tps, ram, focus=None, max_ops=5, offgrid=False):
     unit = F(20, tps)
     load = r.choice([0.03, 0.1, 0.25, 0.6])
     cap = r.choice([3, 10, 30, 60])
@@ -91,7 +91,7 @@ def gen_pipes(r, nticks, tps, ram, focus=None, max_ops=5):
                 segs = []
                 for _ in range(r.choice([1, 1, 1, 2, 3])):
                     law = r.choice(LAWS)
-                    cq = F(r.choice(dur_kinds)) + (F(r.choice([13, 37, 50, 71]), 100) if r.random() < 0.7 else 0)
+                    cq = F(r.choice(dur_kinds)) + (F(r.choice([13, 37, 50, 71]), 100) if (offgrid or r.random() < 0.7) else 0)
                     b = cq / tps
                     fr = F(str(r.choice(mem_fr)))
                     if r.random() < 0.5:
@@ -99,9 +99,11 @@ def gen_pipes(r, nticks, tps, ram, focus=None, max_ops=5):
                         read = fr * ram
                         if read / unit > 60:
                             read = 60 * unit * fr
+                        if offgrid:
+                            read = (F(int(read / unit)) + F(r.choice([13, 37, 71]), 100)) * unit
                         mem = None
                     else:
-                        read = F(r.choice(dur_kinds)) * unit + (F(r.choice([13, 50, 87]), 100) * unit if r.random() < 0.6 else 0)
+                        read = F(r.choice(dur_kinds)) * unit + (F(r.choice([13, 50, 87]), 100) * unit if (offgrid or r.random() < 0.6) else 0)
                         mem = r.choice([F(0), fr * ram, fr * ram, fr * ram / 2])
                     segs.append([fstr(b), law, None if mem is None else fstr(mem), fstr(read)])
                 ops.append({"par": par[oi], "segs": segs})
@@ -192,3 +194,47 @@ def gen_uncontended(r, tier="quick"):
            "multi": True if algo == "priority-pool" else r.random() < 0.5, "over": algo == "overbook"}
     prio = r.choice(PRIOS)
     return {"kind": "sys", "cfg": cfg, "pipes": [{"prio": prio, "at": at, "id": "p1", "ops": ops}]}
+
+
+def gen_preempt(r, tier="quick", offgrid=True):
+    """Workloads that make the priority scheduler pre-empt: few CPUs (a pool is depleted after `cpus` containers of
+    1 CPU), multi-operator batch/interactive containers with short operators (boundaries every few ticks) saturating the
+    pools, and query bursts arriving on top.  Write-outs from one tick (tps 1..3) to tens of ticks."""
+    tps = r.choice([1, 1, 2, 3, 5, 10, 20, 50])
+    unit = F(20, tps)
+    pools = r.choice([1, 1, 2, 3])
+    cpus = r.choice([1, 2, 3, 4, 8])
+    ram = r.choice([8, 20, 64, 100, 256])
+    nticks = r.randint(40, 250)
+    cfg = {"algo": "priority", "tps": tps, "duration": float(F(nticks, tps)), "pools": pools, "cpus": cpus, "ram": ram,
+           "multi": True, "over": False}
+    frac_ = lambda: F(r.choice([13, 37, 71]), 100) if offgrid else 0
+    pipes = []
+    small = F(ram, 200)
+
+    def chain(prio, at, nops, dur_max):
+        ops = []
+        for i in range(nops):
+            d = F(r.randint(1, dur_max)) + frac_()
+            if r.random() < 0.5:
+                seg = [fstr(d / tps), r.choice(["const", "const", "linear3", "exp"]), fstr(small), "0"]
+            else:
+                seg = [fstr(frac_() / tps) if offgrid else "0", "const", None, fstr((F(r.randint(1, dur_max)) + frac_()) * unit / 8)]
+            par = [i - 1] if i and r.random() < 0.8 else []
+            ops.append({"par": par, "segs": [seg]})
+        return {"prio": prio, "at": at, "ops": ops}
+    nb = r.randint(pools * cpus, pools * cpus * 3)
+    for k in range(nb):
+        pipes.append(chain(r.choice(["BATCH_PIPELINE", "BATCH_PIPELINE", "INTERACTIVE"]), r.randint(0, 3), r.randint(2, 6), r.choice([2, 4, 8])))
+    t = r.randint(2, 8)
+    while t < nticks - 5 and len(pipes) < 60:
+        for _ in range(r.randint(1, 4)):
+            q = chain("QUERY", t, r.choice([1, 1, 2, 3]), r.choice([1, 3, 6]))
+            pipes.append(q)
+        if r.random() < 0.4:
+            pipes.append(chain(r.choice(["BATCH_PIPELINE", "INTERACTIVE"]), t, r.randint(2, 5), 4))
+        t += r.randint(1, 25)
+    pipes.sort(key=lambda p: p["at"])
+    for k, p in enumerate(pipes):
+        p["id"] = "p%d" % (k + 1)
+    return {"kind": "sys", "cfg": cfg, "pipes": pipes}
